@@ -115,8 +115,19 @@ func (w *world) op(r *rand.Rand, wd *watchdog, from string, depth int) {
 	case 8:
 		nsp.OnceConnection(func(sio.ServerSocket) {})
 	case 9:
-		nsp.OnEvent("nev", h)
-		nsp.OffEvent("nev", h)
+		switch r.Intn(4) {
+		case 0:
+			nsp.OnEvent("nev", h)
+			nsp.OffEvent("nev", h)
+		case 1:
+			nsp.OffEvent("never-registered", h, func(int) {}) // several handlers, unknown event
+		case 2:
+			nsp.OnEvent("nev2", h)
+			nsp.OffEvent("nev2") // all handlers of the event
+		case 3:
+			nsp.OnceEvent("nev", h)
+			nsp.OffEvent("nev", h, h)
+		}
 	case 10:
 		nsp.Adapter().SocketRooms("nobody")
 		nsp.Adapter().Sockets(adapter.NewBroadcastOptions().Rooms)
@@ -150,8 +161,18 @@ func (w *world) op(r *rand.Rand, wd *watchdog, from string, depth int) {
 		}
 	case 18:
 		if s != nil {
-			s.OnEvent("sev", h)
-			s.OffEvent("sev", h)
+			switch r.Intn(4) {
+			case 0:
+				s.OnEvent("sev", h)
+				s.OffEvent("sev", h)
+			case 1:
+				s.OffEvent("never-registered", h, func(int) {})
+			case 2:
+				s.OnEvent("sev2", h)
+				s.OffEvent("sev2")
+			case 3:
+				s.OffEvent("sev", h, h)
+			}
 		}
 	case 19:
 		if s != nil {
@@ -174,8 +195,18 @@ func (w *world) op(r *rand.Rand, wd *watchdog, from string, depth int) {
 	case 24:
 		c.Volatile().Emit("do", r.Intn(1000))
 	case 25:
-		c.OnEvent("cev", h)
-		c.OffEvent("cev", h)
+		switch r.Intn(4) {
+		case 0:
+			c.OnEvent("cev", h)
+			c.OffEvent("cev", h)
+		case 1:
+			c.OffEvent("never-registered", h, func(int) {})
+		case 2:
+			c.OnEvent("cev2", h)
+			c.OffEvent("cev2")
+		case 3:
+			c.OffEvent("cev", h, h)
+		}
 	case 26:
 		c.OnceEvent("cev", h)
 	case 27:
